@@ -204,29 +204,15 @@ Proof.
     apply In_skipn_nth in Hp as [m Hp]. apply kw_bound_spec. exists p. rewrite <- He.
     apply (bind_params_kw (f_params f) 0 (c_npos c) (c_kws c) bound Hb _ p Hp); [lia|].
     rewrite He. apply mem_str_In; assumption. }
-  (* dropped keywords are droppable, and a trace-only function drops none *)
-  assert (Hdk : forall k, In k (filter (fun k => negb (kw_bound k bound)) (c_kws c)) ->
-            f_traced f = false /\ droppable k = true).
+  (* dropped keywords are droppable *)
+  assert (Hdk : forall k, In k (filter (fun k => negb (kw_bound k bound)) (c_kws c)) -> droppable k = true).
   { intros k Hk. apply filter_In in Hk as [Hk Hnb]. apply negb_true_iff in Hnb.
     destruct (Hkws k Hk) as [a Ha]. pose proof (find_kw_some _ _ _ Ha) as [Hin Hname].
     rewrite forallb_forall in Hkwok. specialize (Hkwok a Hin). apply orb_true_iff in Hkwok as [Hh | Hd].
     - rewrite (Hbound k a Hk Ha Hh) in Hnb. discriminate.
-    - apply andb_true_iff in Hd as [Ht Hd]. apply negb_true_iff in Ht. rewrite Hname in Hd. split; assumption. }
-  unfold bind.
-  assert (Hlen : f_traced f && (length (f_params f) <? c_npos c) = false).
-  { destruct (f_traced f) eqn:T; [|reflexivity]. simpl. apply Nat.ltb_ge. apply Nat.leb_le in Hover. lia. }
-  rewrite Hlen, Hb.
-  set (dk := filter (fun k => negb (kw_bound k bound)) (c_kws c)) in *.
-  assert (Hres : exists b, (match f_traced f, dk with
-                            | true, k :: _ => Err (UnexpectedKeyword k)
-                            | _, _ => OK (mkB bound (seq (length (f_params f)) (c_npos c - length (f_params f))) dk)
-                            end) = OK b /\ b = mkB bound (seq (length (f_params f)) (c_npos c - length (f_params f))) dk).
-  { destruct (f_traced f) eqn:T.
-    - destruct dk as [|k dk'] eqn:Edk.
-      + eexists; split; reflexivity.
-      + exfalso. destruct (Hdk k) as [Hf _]; [left; reflexivity | congruence].
-    - eexists; split; reflexivity. }
-  destruct Hres as [b [Hbind ->]]. eexists; split; [exact Hbind|].
+    - rewrite Hname in Hd. assumption. }
+  unfold bind, bind_signature. rewrite Hb.
+  eexists; split; [reflexivity|].
   constructor; simpl.
   - assumption.
   - intros p src Hin Hne. specialize (Hs p src Hin). destruct src as [j|k|]; simpl in *.
@@ -247,11 +233,9 @@ Proof.
   - intros i Hi. apply in_seq in Hi.
     destruct (nth_error (pos_args s) i) as [a|] eqn:N; [|apply nth_error_None in N; lia].
     exists a; split; [reflexivity|].
-    destruct (f_traced f).
-    + apply Nat.leb_le in Hover. lia.
-    + rewrite forallb_forall in Hover. apply Hover.
-      assert (Hi' : i = length (f_params f) + (i - length (f_params f))) by lia.
-      rewrite Hi' in N. rewrite <- nth_error_skipn_add in N. eapply nth_error_In; eassumption.
+    rewrite forallb_forall in Hover. apply Hover.
+    assert (Hi' : i = length (f_params f) + (i - length (f_params f))) by lia.
+    rewrite Hi' in N. rewrite <- nth_error_skipn_add in N. eapply nth_error_In; eassumption.
   - intros k Hk. apply (Hdk k Hk).
   - intros i Hi. destruct (Nat.lt_ge_cases i (length (f_params f))) as [Hlt | Hge].
     + left. apply Hcov; lia.
@@ -261,16 +245,28 @@ Proof.
     + right. apply filter_In. split; [assumption | rewrite Kb; reflexivity].
 Qed.
 
-(* a trace-only function never drops anything: whatever does not fit raises *)
-Lemma traced_never_drops : forall f c b, f_traced f = true -> bind f c = OK b ->
-  b_dropped_pos b = [] /\ b_dropped_kw b = [].
+(* Python's own call binding (how the installed exporter actually reaches a trace-only function) against
+   the signature binder: it succeeds exactly when the signature binder succeeds and drops nothing, and
+   then yields the same binding -- its only difference is that what would be dropped raises. *)
+Lemma seq_nil_iff : forall n k, seq n k = [] <-> k = 0.
+Proof. intros n [|k]; simpl; split; intro H; try reflexivity; discriminate. Qed.
+
+Lemma python_call_vs_signature : forall ps c b,
+  bind_python ps c = OK b <->
+  (bind_signature ps c = OK b /\ b_dropped_pos b = [] /\ b_dropped_kw b = []).
 Proof.
-  intros f c b T H. unfold bind in H. rewrite T in H. simpl in H.
-  destruct (length (f_params f) <? c_npos c) eqn:L; [discriminate|].
-  destruct (bind_params (f_params f) 0 (c_npos c) (c_kws c)) as [bound|e]; [|discriminate].
-  destruct (filter (fun k => negb (kw_bound k bound)) (c_kws c)) eqn:D; [|discriminate].
-  inversion H; subst; simpl. apply Nat.ltb_ge in L. replace (c_npos c - length (f_params f)) with 0 by lia.
-  split; reflexivity.
+  intros ps c b. unfold bind_python. split.
+  - destruct (length ps <? c_npos c) eqn:L; [discriminate|]. apply Nat.ltb_ge in L.
+    destruct (bind_signature ps c) as [b'|e] eqn:S; [|discriminate].
+    destruct (b_dropped_kw b') eqn:D; [|discriminate]. intro H; inversion H; subst b'.
+    split; [reflexivity | split; [|assumption]].
+    unfold bind_signature in S. destruct (bind_params ps 0 (c_npos c) (c_kws c)); [|discriminate].
+    inversion S; subst; simpl. apply seq_nil_iff. lia.
+  - intros [S [Hp Hk]]. rewrite S, Hk.
+    assert (L : length ps <? c_npos c = false).
+    { apply Nat.ltb_ge. unfold bind_signature in S. destruct (bind_params ps 0 (c_npos c) (c_kws c)); [|discriminate].
+      inversion S; subst; simpl in Hp. apply seq_nil_iff in Hp. lia. }
+    rewrite L. reflexivity.
 Qed.
 
 (* the hypotheses of binds_ok_sound are satisfiable on a non-trivial instance:
@@ -301,15 +297,19 @@ Definition mean_schema : schema := [mkA "self" BTensor false false false false; 
 Definition mean_sig : fn_sig := mkF [mkP "self" PInput true] false.
 Lemma mean_refuted : exists c b, conforms mean_schema c /\ bind mean_sig c = OK b /\ In "dtype" (b_dropped_kw b) /\ droppable "dtype" = false.
 Proof. exists (mkC 1 ["dtype"]). eexists. split; [reflexivity|]. split; [reflexivity|]. split; [left; reflexivity | reflexivity]. Qed.
-(* aten::rand_like(Tensor self, *, ..., MemoryFormat? memory_format=None) vs trace-only aten_rand_like without that parameter *)
+(* aten::rand_like(Tensor self, *, ..., MemoryFormat? memory_format=None) vs aten_rand_like without that parameter:
+   the signature binder drops the (droppable) keyword, so the entry binds; Python's call binding raises on the same call *)
 Definition rand_like_schema : schema :=
   [mkA "self" BTensor false false false false; mkA "dtype" BScalarType false true true true; mkA "layout" BLayout false true true true;
    mkA "device" BDevice false true true true; mkA "pin_memory" BBool false true true true; mkA "memory_format" BMemoryFormat false true true true].
 Definition rand_like_sig : fn_sig :=
   mkF [mkP "self" PInput true; mkP "dtype" (PAttr AInt) false; mkP "layout" (PAttr AString) false;
        mkP "device" (PAttr AString) false; mkP "pin_memory" (PAttr AInt) false] true.
-Lemma rand_like_refuted : exists c, conforms rand_like_schema c /\ bind rand_like_sig c = Err (UnexpectedKeyword "memory_format").
-Proof. exists (mkC 1 ["memory_format"]). split; reflexivity. Qed.
+Lemma rand_like_drops_memory_format :
+  binds_ok rand_like_schema rand_like_sig = true /\
+  exists c b, conforms rand_like_schema c /\ bind rand_like_sig c = OK b /\ b_dropped_kw b = ["memory_format"] /\
+              bind_python (f_params rand_like_sig) c = Err (UnexpectedKeyword "memory_format").
+Proof. split; [reflexivity|]. exists (mkC 1 ["memory_format"]). eexists. repeat split. Qed.
 
 (* ------------------------------------------------------------------------------------------ names *)
 
@@ -335,7 +335,10 @@ Proof.
 Qed.
 
 Lemma nonempty_spec : forall s, nonempty s = true <-> s <> "".
-Proof. intros [|c r]; simpl; split; intro H; try congruence; try discriminate. contradiction H; reflexivity. Qed.
+Proof.
+  intros [|c r]; simpl; split; intro H; try discriminate; try reflexivity.
+  exfalso; apply H; reflexivity.
+Qed.
 
 (* the language of ^[a-zA-Z0-9_]+::[a-zA-Z0-9_]+(\.[a-zA-Z0-9._]+)?$ *)
 Definition in_regex (s : string) : Prop :=
@@ -376,14 +379,14 @@ Qed.
 Lemma ends_with_spec : forall suf s, ends_with suf s = true <-> exists pre, s = pre ++ suf.
 Proof.
   intros suf s; split.
-  - induction s as [|c r IH]; simpl; intro H.
+  - induction s as [|c r IH]; cbn [ends_with]; intro H.
     + destruct (String.eqb suf "") eqn:E; [|discriminate]. apply String.eqb_eq in E. subst. exists "". reflexivity.
     + destruct (String.eqb suf (String c r)) eqn:E.
       * apply String.eqb_eq in E. subst. exists "". reflexivity.
       * destruct (IH H) as [pre ->]. exists (String c pre). reflexivity.
   - intros [pre ->]. induction pre as [|c r IH]; simpl.
-    + destruct suf; simpl; rewrite String.eqb_refl; reflexivity.
-    + destruct (String.eqb suf (String c (r ++ suf))); [reflexivity | assumption].
+    + destruct suf; cbn [ends_with]; rewrite String.eqb_refl; reflexivity.
+    + cbn [ends_with append]. destruct (String.eqb suf (String c (r ++ suf))); [reflexivity | assumption].
 Qed.
 
 (* the accepted names are exactly the regular language minus the strings ending in ".default" *)
@@ -417,14 +420,14 @@ Section Registry.
   Definition slot o (cx : bool) : list F := if cx then o_complex o else o_real o.
 
   Lemma add_fn_name : forall fn cx o, o_name (add_fn fn cx o) = o_name o.
-  Proof. intros fn cx o. unfold add_fn. destruct cx; [destruct (o_complex o) | destruct (o_real o)]; reflexivity. Qed.
+  Proof. intros fn cx [n r c]. unfold add_fn. destruct cx; simpl; [destruct c | destruct r]; reflexivity. Qed.
 
   Lemma add_fn_slot : forall fn cx o cx',
     slot (add_fn fn cx o) cx' =
       if Bool.eqb cx cx' then match slot o cx' with [] => [fn] | l => l end else slot o cx'.
   Proof.
-    intros fn cx o cx'. unfold add_fn, slot.
-    destruct cx, cx'; simpl; try (destruct (o_complex o); reflexivity); destruct (o_real o); reflexivity.
+    intros fn cx [n r c] cx'. unfold add_fn, slot.
+    destruct cx, cx'; simpl; try (destruct c; reflexivity); destruct r; reflexivity.
   Qed.
 
   Lemma resolve_slot : forall st name cx,
